@@ -55,6 +55,8 @@ func main() {
 	write("ConfigLocks.lean", genConfigLocks())
 	write("FmtCmd.lean", genFmtCmd())
 	write("Resume.lean", genResume())
+	write("HostMatcherWrites.lean", genHostMatcherWrites())
+	write("MapRanges.lean", genMapRanges())
 
 	// typed scan, cached by content hash of the scanned sources
 	h := hashTree(repo)
@@ -919,7 +921,50 @@ func genAdminGate() string {
 		return nil
 	})
 	sort.Strings(modRoutes)
+	// C13 lifecycle: in replaceLocalAdminServer / replaceRemoteAdminServer, the conditions of the
+	// `if … { return … }` guards that come BEFORE the defer that stops the previous server (a load that
+	// takes such a return leaves the previous server running), and whether that defer exists
+	guardsBeforeStop := func(fname string) ([]string, bool) {
+		gd := findFunc(f, "", fname)
+		var guards []string
+		if gd == nil || gd.Body == nil {
+			return nil, false
+		}
+		for _, st := range gd.Body.List {
+			switch t := st.(type) {
+			case *ast.DeferStmt:
+				stops := false
+				ast.Inspect(t, func(x ast.Node) bool {
+					if ce, ok := x.(*ast.CallExpr); ok && exprText(ce.Fun) == "stopAdminServer" {
+						stops = true
+					}
+					return true
+				})
+				if stops {
+					return guards, true
+				}
+			case *ast.IfStmt:
+				returns := false
+				for _, b := range t.Body.List {
+					if _, ok := b.(*ast.ReturnStmt); ok {
+						returns = true
+					}
+				}
+				if returns {
+					guards = append(guards, exprText(t.Cond))
+				}
+			}
+		}
+		return guards, false
+	}
+	lg, lstop := guardsBeforeStop("replaceLocalAdminServer")
+	rg, rstop := guardsBeforeStop("replaceRemoteAdminServer")
 	return header +
+		"/-- admin.go replaceLocalAdminServer / replaceRemoteAdminServer: the conditions of the returning `if` guards that\n    precede the `defer` which stops the previous admin server (top-level statements, in order), and whether such a\n    defer exists -/\n" +
+		"def localGuardsBeforeStop : List String := " + leanStrList(lg) + "\n" +
+		"def localStopsPreviousServer : Bool := " + strconv.FormatBool(lstop) + "\n" +
+		"def remoteGuardsBeforeStop : List String := " + leanStrList(rg) + "\n" +
+		"def remoteStopsPreviousServer : Bool := " + strconv.FormatBool(rstop) + "\n\n" +
 		"/-- the route patterns registered by the admin.api modules of the tree: every `AdminRoute{Pattern: …}` composite\n    literal outside admin.go, tests and verif hooks, as (file, pattern); an identifier is resolved to the string\n    constant of its package -/\n" +
 		"def moduleAdminRoutePatterns : List (String × String) := [" + strings.Join(modRoutes, ", ") + "]\n\n" +
 		"/-- the gates in the order `adminHandler.serveHTTP` (admin.go) reaches them, helpers of the same file inlined:\n    remote ACL, websocket refusal, host check, origin check, then the mux -/\n" +
@@ -1853,6 +1898,41 @@ func genGlue() string {
 		sb.WriteString("def httpProvisionOrder : List String := " + leanStrList(order) + "\n\n")
 	}
 
+	// C19: listeners.go (*sharedQUICState).addState — does any of its own return statements hand out the
+	// bare context.CancelFunc (the one context.WithCancel returned) instead of a function that also
+	// unregisters the tls.Config?
+	{
+		_, f := parseFile("listeners.go")
+		fd := findFunc(f, "sharedQUICState", "addState")
+		bare := map[string]bool{}
+		returnsBare, nReturns := false, 0
+		if fd != nil && fd.Body != nil {
+			ast.Inspect(fd.Body, func(x ast.Node) bool {
+				if as, ok := x.(*ast.AssignStmt); ok && len(as.Rhs) == 1 && len(as.Lhs) == 2 {
+					if ce, ok := as.Rhs[0].(*ast.CallExpr); ok && exprText(ce.Fun) == "context.WithCancel" {
+						bare[exprText(as.Lhs[1])] = true
+					}
+				}
+				return true
+			})
+			ast.Inspect(fd.Body, func(x ast.Node) bool {
+				switch t := x.(type) {
+				case *ast.FuncLit:
+					return false // returns of closures are not addState's
+				case *ast.ReturnStmt:
+					nReturns++
+					if len(t.Results) == 2 && bare[exprText(t.Results[1])] {
+						returnsBare = true
+					}
+				}
+				return true
+			})
+		}
+		sb.WriteString("/-- listeners.go (*sharedQUICState).addState: number of its own return statements, and whether one of them returns\n    the bare cancel function obtained from context.WithCancel (which does not unregister the tls.Config) -/\n")
+		sb.WriteString(fmt.Sprintf("def quicAddStateReturns : Nat := %d\n", nReturns))
+		sb.WriteString("def quicAddStateReturnsBareCancel : Bool := " + map[bool]string{false: "false", true: "true"}[returnsBare] + "\n\n")
+	}
+
 	// C13: replaceRemoteAdminServer
 	{
 		_, f := parseFile("admin.go")
@@ -2513,4 +2593,224 @@ func genResume() string {
 		"def cmdRunReadsBeforeEnvFile : Nat := " + strconv.Itoa(readsBefore) + "\n\n" +
 		"/-- `loadEnvFromFile` (cmd/main.go) assigns `caddy.ConfigAutosavePath` from `caddy.AppConfigDir()` below its last `os.Setenv` -/\n" +
 		"def loadEnvFromFileRecomputesAutosavePath : Bool := " + b(recompute) + "\n" + footer
+}
+
+// genMapRanges (C16): every `for … range <map>` in the Caddyfile unmarshalers (caddyconfig/httpcaddyfile/*.go and
+// modules/**/caddyfile.go, non-test) — found syntactically: the ranged expression is a local variable, parameter or
+// struct field whose declaration in the same package shows a map type (make(map…), map literal, var/param/field of
+// map type). For each one: does the body append to a slice, is what it appends the range KEY itself, and which sort
+// call on that slice follows in the enclosing block. Iterating a Go map is in random order, so an appended slice
+// that reaches the JSON must be sorted by something that tells the map's keys apart.
+func genMapRanges() string {
+	var files []string
+	if ms, _ := filepath.Glob(filepath.Join(repo, "caddyconfig", "httpcaddyfile", "*.go")); ms != nil {
+		files = append(files, ms...)
+	}
+	filepath.Walk(filepath.Join(repo, "modules"), func(p string, info os.FileInfo, err error) error {
+		if err == nil && !info.IsDir() && filepath.Base(p) == "caddyfile.go" {
+			files = append(files, p)
+		}
+		return nil
+	})
+	sort.Strings(files)
+	isMapType := func(e ast.Expr) bool {
+		_, ok := e.(*ast.MapType)
+		return ok
+	}
+	isMapValue := func(e ast.Expr) bool {
+		switch v := e.(type) {
+		case *ast.CompositeLit:
+			return v.Type != nil && isMapType(v.Type)
+		case *ast.CallExpr:
+			if id, ok := v.Fun.(*ast.Ident); ok && id.Name == "make" && len(v.Args) > 0 {
+				return isMapType(v.Args[0])
+			}
+		}
+		return false
+	}
+	// struct fields of map type, per directory (package)
+	mapFields := map[string]map[string]bool{}
+	parsed := map[string]*ast.File{}
+	for _, fn := range files {
+		if strings.HasSuffix(fn, "_test.go") || strings.HasSuffix(fn, "_verif.go") {
+			continue
+		}
+		fset := token.NewFileSet()
+		f, err := parser.ParseFile(fset, fn, nil, 0)
+		if err != nil {
+			continue
+		}
+		parsed[fn] = f
+		dir := filepath.Dir(fn)
+		if mapFields[dir] == nil {
+			mapFields[dir] = map[string]bool{}
+		}
+		ast.Inspect(f, func(x ast.Node) bool {
+			if st, ok := x.(*ast.StructType); ok && st.Fields != nil {
+				for _, fld := range st.Fields.List {
+					if isMapType(fld.Type) {
+						for _, n := range fld.Names {
+							mapFields[dir][n.Name] = true
+						}
+					}
+				}
+			}
+			return true
+		})
+	}
+	var rows []string
+	for _, fn := range files {
+		f := parsed[fn]
+		if f == nil {
+			continue
+		}
+		rel, _ := filepath.Rel(repo, fn)
+		dir := filepath.Dir(fn)
+		for _, d := range f.Decls {
+			fd, ok := d.(*ast.FuncDecl)
+			if !ok || fd.Body == nil {
+				continue
+			}
+			// local names of map type
+			maps := map[string]bool{}
+			if fd.Type.Params != nil {
+				for _, p := range fd.Type.Params.List {
+					if isMapType(p.Type) {
+						for _, n := range p.Names {
+							maps[n.Name] = true
+						}
+					}
+				}
+			}
+			ast.Inspect(fd.Body, func(x ast.Node) bool {
+				switch v := x.(type) {
+				case *ast.AssignStmt:
+					for i, rhs := range v.Rhs {
+						if i < len(v.Lhs) && isMapValue(rhs) {
+							if id, ok := v.Lhs[i].(*ast.Ident); ok {
+								maps[id.Name] = true
+							}
+						}
+					}
+				case *ast.ValueSpec:
+					for i, n := range v.Names {
+						if (v.Type != nil && isMapType(v.Type)) || (i < len(v.Values) && isMapValue(v.Values[i])) {
+							maps[n.Name] = true
+						}
+					}
+				}
+				return true
+			})
+			// every block: range statements over those maps
+			var visitBlock func(list []ast.Stmt)
+			inspectRange := func(list []ast.Stmt, idx int, r *ast.RangeStmt) {
+				isMap := false
+				switch v := r.X.(type) {
+				case *ast.Ident:
+					isMap = maps[v.Name]
+				case *ast.SelectorExpr:
+					isMap = mapFields[dir][v.Sel.Name]
+				case *ast.IndexExpr:
+					// m[k] where m is a map of maps cannot be told syntactically; skip
+				}
+				if !isMap {
+					return
+				}
+				keyName := ""
+				if id, ok := r.Key.(*ast.Ident); ok {
+					keyName = id.Name
+				}
+				// appends in the body
+				type app struct {
+					slice string
+					isKey bool
+				}
+				var apps []app
+				ast.Inspect(r.Body, func(x ast.Node) bool {
+					as, ok := x.(*ast.AssignStmt)
+					if !ok || len(as.Lhs) != 1 || len(as.Rhs) != 1 {
+						return true
+					}
+					ce, ok := as.Rhs[0].(*ast.CallExpr)
+					if !ok {
+						return true
+					}
+					if id, ok := ce.Fun.(*ast.Ident); !ok || id.Name != "append" || len(ce.Args) < 2 {
+						return true
+					}
+					if exprText(ce.Args[0]) != exprText(as.Lhs[0]) {
+						return true
+					}
+					isKey := len(ce.Args) == 2 && keyName != "" && keyName != "_" && exprText(ce.Args[1]) == keyName
+					apps = append(apps, app{exprText(as.Lhs[0]), isKey})
+					return true
+				})
+				where := rel + ":" + fd.Name.Name
+				if len(apps) == 0 {
+					rows = append(rows, "("+leanStr(where)+", "+leanStr(exprText(r.X))+", \"noappend\", \"\")")
+					return
+				}
+				for _, a := range apps {
+					sortCall := "NOSORT"
+					for _, st := range list[idx+1:] {
+						found := ""
+						ast.Inspect(st, func(x ast.Node) bool {
+							ce, ok := x.(*ast.CallExpr)
+							if !ok || found != "" {
+								return true
+							}
+							fnText := exprText(ce.Fun)
+							switch fnText {
+							case "sort.Strings", "sort.Ints", "slices.Sort", "sort.Slice", "sort.SliceStable", "slices.SortFunc", "slices.SortStableFunc", "sort.Sort", "sort.Stable":
+								if len(ce.Args) > 0 && strings.Contains(exprText(ce.Args[0]), a.slice) {
+									found = fnText
+								}
+							}
+							return true
+						})
+						if found != "" {
+							sortCall = found
+							break
+						}
+					}
+					what := "appendother"
+					if a.isKey {
+						what = "appendkey"
+					}
+					rows = append(rows, "("+leanStr(where)+", "+leanStr(exprText(r.X))+", "+leanStr(what)+", "+leanStr(sortCall)+")")
+				}
+			}
+			visitBlock = func(list []ast.Stmt) {
+				for i, st := range list {
+					if r, ok := st.(*ast.RangeStmt); ok {
+						inspectRange(list, i, r)
+					}
+					// nested blocks
+					ast.Inspect(st, func(x ast.Node) bool {
+						switch b := x.(type) {
+						case *ast.BlockStmt:
+							if x != ast.Node(st) {
+								visitBlock(b.List)
+								return false
+							}
+						case *ast.CaseClause:
+							visitBlock(b.Body)
+							return false
+						case *ast.CommClause:
+							visitBlock(b.Body)
+							return false
+						}
+						return true
+					})
+				}
+			}
+			visitBlock(fd.Body.List)
+		}
+	}
+	var sb strings.Builder
+	sb.WriteString(header)
+	sb.WriteString("/-- every `range` over a (syntactically recognisable) map in caddyconfig/httpcaddyfile/*.go and modules/**/caddyfile.go:\n    (file:function, ranged expression, `noappend` | `appendkey` (the body appends the range key itself to a slice) |\n    `appendother` (it appends something else), the first sort call on that slice later in the enclosing block, or `NOSORT`) -/\n")
+	sb.WriteString("def caddyfileMapRanges : List (String × String × String × String) := [\n  " + strings.Join(rows, ",\n  ") + "]\n")
+	sb.WriteString(footer)
+	return sb.String()
 }
